@@ -46,8 +46,17 @@ theorem tie_getCell (floor trunc : α → Int) (g : Raster.Grid α) (x y : α)
 end
 
 /-! ## The cell operators of `core/utils.py` (`co_sum`, `co_min`, `co_max`, `co_count`, `co_avg`, `co_median`)
--/
 
+The generated definitions `Gen.Utils.co_*` are polymorphic in the scalar and test NaN by `isnan x = !(x == x)`. The model
+(`Model/Raster.lean`) represents the values of a cell as a `List (Option α)`, `none` standing for NaN. The ties instantiate
+the generated definitions at the NaN-EXTENDED scalar `Nan α` (`Option α` with IEEE-like operations: arithmetic with a NaN
+operand is NaN, every comparison with a NaN operand is false), so that `isnan none = true` and, for `a ≤ a`,
+`isnan (some a) = false`; the result of the code is then the model's value on ALL lists (no exception is raised).
+Common hypothesis `hle : ∀ x : α, x ≤ x`: `α` is the NON-NaN part of the scalar (true of the non-NaN doubles and of an
+ordered field). -/
+
+/-- GENERAL (could live in the prelude): `for i in range(len(l)): v = l[i]; f v` is `for v in l: f v`, for every body
+that starts by reading `l[i]` and does not use `i` otherwise -/
 theorem forList_range_getIdx_aux {β σ ρ : Type} (l : List β) (f : β → σ → M (Ctl σ ρ)) (body : Int → σ → M (Ctl σ ρ))
     (h : ∀ i s, body i s = Py.bind (Py.getIdx l i) (fun v => f v s)) (suf pre : List β) (hl : l = pre ++ suf) (s : σ) :
     Py.forList body (Py.range (pre.length : Int) (Py.len l)) s = Py.forList f suf s := by
@@ -69,6 +78,7 @@ theorem forList_range_getIdx_aux {β σ ρ : Type} (l : List β) (f : β → σ 
       | brk s1 => rfl
       | ret r => rfl
 
+/-- GENERAL (could live in the prelude): `for i in range(len(l)): v = l[i]; …` is the loop over the elements of `l` -/
 theorem forList_range_getIdx {β σ ρ : Type} (l : List β) (f : β → σ → M (Ctl σ ρ)) (body : Int → σ → M (Ctl σ ρ))
     (h : ∀ i s, body i s = Py.bind (Py.getIdx l i) (fun v => f v s)) (s : σ) :
     Py.forList body (Py.range 0 (Py.len l)) s = Py.forList f l s :=
@@ -88,7 +98,7 @@ def rel (r : α → α → Prop) : Nan α → Nan α → Prop
   | some x, some y => r x y
   | some _, none => False
   | none, _ => False
-instance decRel (r : α → α → Prop) [d : ∀ a b, Decidable (r a b)] : ∀ a b, Decidable (rel r a b)
+def decRel (r : α → α → Prop) [d : ∀ a b, Decidable (r a b)] : ∀ a b, Decidable (rel r a b)
   | some x, some y => d x y
   | some _, none => isFalse (fun h => h)
   | none, _ => isFalse (fun h => h)
@@ -123,7 +133,7 @@ theorem zero_eq [OfNat α 0] : (0 : Nan α) = num 0 := rfl
 theorem add_num [Add α] (a b : α) : num a + num b = num (a + b) := rfl
 end Nan
 
-/-- a `for i in range(len(l)): val = l[i]; …` loop whose body always ends normally is a left fold over `l` -/
+/-- GENERAL (could live in the prelude): a `for i in range(len(l)): val = l[i]; …` loop whose body always ends normally is a left fold over `l` -/
 theorem forList_range_getIdx_foldl {β σ ρ : Type} (l : List β) (step : σ → β → σ) (body : Int → σ → M (Ctl σ ρ))
     (h : ∀ i s, body i s = Py.bind (Py.getIdx l i) (fun v => .ok (.cont (step s v)))) (s : σ) :
     Py.forList body (Py.range 0 (Py.len l)) s = .ok (.done (l.foldl step s)) := by
@@ -134,7 +144,8 @@ section
 variable {α : Type}
 open Nan
 
-/-- `co_sum` -/
+/-- `co_sum(tarray)` on a list with NaNs is `some (coSum l)` (never NaN, never an exception).
+Hypothesis: `hle` — `≤` is reflexive on the non-NaN scalars. -/
 theorem tie_co_sum [Add α] [OfNat α 0] [LE α] [DecidableLE α] (l : List (Option α)) (hle : ∀ x : α, x ≤ x) :
     Gen.Utils.co_sum (α := Nan α) l = .ok (some (Raster.coSum l)) := by
   revert l; intro (l : List (Nan α))
@@ -160,7 +171,8 @@ theorem tie_co_sum [Add α] [OfNat α 0] [LE α] [DecidableLE α] (l : List (Opt
   · intro x y; cases y using Nan.casesOn' <;> rfl
 
 
-/-- `co_min` -/
+/-- `co_min(tarray)` is the model's `coMin` (`none` = the function returns NaN: empty list or only NaNs).
+Hypothesis: `hle` — `≤` is reflexive on the non-NaN scalars. -/
 theorem tie_co_min [LT α] [DecidableLT α] [LE α] [DecidableLE α] (l : List (Option α)) (hle : ∀ x : α, x ≤ x) :
     Gen.Utils.co_min (α := Nan α) (nan := none) l = .ok (Raster.coMin l) := by
   revert l; intro (l : List (Nan α))
@@ -201,7 +213,7 @@ theorem tie_co_min [LT α] [DecidableLT α] [LE α] [DecidableLE α] (l : List (
     rfl
 
 
-/-- `co_max` -/
+/-- `co_max(tarray)` is the model's `coMax` (`none` = NaN). Hypothesis: `hle`. -/
 theorem tie_co_max [LT α] [DecidableLT α] [LE α] [DecidableLE α] (l : List (Option α)) (hle : ∀ x : α, x ≤ x) :
     Gen.Utils.co_max (α := Nan α) (nan := none) l = .ok (Raster.coMax l) := by
   revert l; intro (l : List (Nan α))
@@ -254,7 +266,7 @@ theorem foldl_count (l : List (Nan α)) (c : Int) :
       show List.foldl _ (c + 1) xs = c + ((Raster.coCount xs + 1 : Nat) : Int)
       rw [ih]; omega
 
-/-- `co_count` -/
+/-- `co_count(tarray)` is the model's `coCount` (number of non-NaN values), as a Python int. Hypothesis: `hle`. -/
 theorem tie_co_count [LE α] [DecidableLE α] (l : List (Option α)) (hle : ∀ x : α, x ≤ x) :
     Gen.Utils.co_count (α := Nan α) l = .ok ((Raster.coCount l : Nat) : Int) := by
   revert l; intro (l : List (Nan α))
@@ -289,7 +301,10 @@ theorem foldl_avg [Add α] (l : List (Nan α)) (s : α) (c : Int) :
       show List.foldl _ (num (s + a), c + 1) xs = (_, c + ((Raster.coCount xs + 1 : Nat) : Int))
       rw [ih]; congr 1; omega
 
-/-- `co_avg` -/
+/-- `co_avg(tarray)` is the model's `coAvg` (`none` = NaN: empty list or only NaNs); no `ZeroDivisionError`.
+Hypotheses: `hle`; `hcast` — converting a non-negative Python int to a float (`IntCast`, what the code does with `count`)
+is the model's `NatCast`; `hnz` — a positive count converted to a float is not `== 0` (both true of doubles and of an
+ordered field of characteristic 0). -/
 theorem tie_co_avg [Add α] [Div α] [OfNat α 0] [IntCast α] [NatCast α] [LE α] [DecidableLE α] (l : List (Option α))
     (hle : ∀ x : α, x ≤ x) (hcast : ∀ n : Nat, ((n : Int) : α) = (n : α))
     (hnz : ∀ n : Nat, n ≠ 0 → ¬ Py.feq (((n : Int) : α)) 0 = true) :
@@ -453,6 +468,12 @@ def truncNan (trunc0 : α → Int) : Nan α → Int
   | some x => trunc0 x
   | none => 0
 
+/-- `co_median(tarray)` is the model's `coMedian` (`none` = NaN); no `IndexError` / `ValueError` (`list.remove`).
+`int(·)` on the NaN-extended scalar is `truncNan trunc0` (it is only ever applied to non-NaN values here).
+Hypotheses: `hbeq` — the model's `==` (used by `List.erase`) is Python's float `==` (`Py.feq`); `hle` — `≤` reflexive on the
+non-NaN scalars (so that `valmin` is found by `remove`); `htr` — `int(float(k) / 2) = k // 2` for a natural `k`;
+`htr1` — `int(float(k) / 2 - 1) = k // 2 - 1` for an EVEN natural `k` (for `k = 1` truncation gives `0`, not `-1`; the code
+only evaluates it for even `n`); `hhalf` — the literal `0.5` is `1 / 2` (the model writes `1 / 2`). -/
 theorem tie_co_median [Add α] [Sub α] [Mul α] [Div α] [LE α] [DecidableLE α] [IntCast α] [OfScientific α] [OfNat α 1] [OfNat α 2]
     [BEq α] (trunc0 : α → Int) (l : List (Option α))
     (hbeq : ∀ a b : α, (a == b) = Py.feq a b) (hle : ∀ x : α, x ≤ x)
